@@ -885,7 +885,10 @@ def oracle_C11(inp):
             out.append("local and server trees answer differently for %r: %r vs %r" % (s, sorted(a), sorted(b)))
         if all(has_path_type(u.type) for u in us):
             types = {u.type for u in us}
-            c = [e for e in FindInList(list(G)).find(s, as_sid=False) if Sid(e).type in types]
+            # FindInList matches strings and ignores the type of a typed search (known finding K6): the
+            # "corresponding list" holds the entities of the searched types, unless the input says otherwise
+            Gs = list(G) if inp.get("allow_type_blind") else [e for e in G if Sid(e).type in types]
+            c = list(FindInList(Gs).find(s, as_sid=False))
             if set(c) != set(a):
                 out.append("FindInList %r vs FindInPaths %r for %r over %r" % (sorted(c), sorted(a), s, leaves))
         if all(uses_paths_finder(u) for u in us):
